@@ -39,6 +39,31 @@ Proof. exact fix_char_scalar. Qed.
 Theorem C19_idempotent : forall s, to_normalized (to_normalized s) = to_normalized s.
 Proof. exact to_normalized_idem. Qed.
 
+From Coq Require Import String.
+From Peppi Require Import Base.Outcome Gen.Layouts Gen.MeleeStringSrc Proofs.MeleeStringLayout.
+(* ---- MeleeString::try_from / to_normalized and their call sites in fn player, regenerated (Gen/MeleeStringSrc.v): the cut byte and
+   its default, the slice, the strict decoder method, the two arms, the mapped function; which parameter each name field is decoded
+   from, and that every call propagates its error *)
+Theorem C19_melee_of_from_source : forall dec bs, melee_of_tbl dec bs = Some (melee_of dec bs).
+Proof. exact melee_of_from_source. Qed.
+Theorem C19_slice_from_source : forall bs, melee_slice_tbl bs = Some (take_until_nul bs).
+Proof. exact take_until_nul_from_source. Qed.
+Theorem C19_to_normalized_from_source : forall s, to_normalized s = map (char_fn melee_normalize_map) s.
+Proof. exact to_normalized_from_source. Qed.
+Theorem C19_fields_from_source :
+  map (fun c => fst (fst c)) melee_string_calls = ["name_tag"; "netplay.name"; "netplay.code"]%string /\
+  map (fun c => block_size (snd (fst c))) melee_string_calls = [Some 16; Some 31; Some 10]%nat.
+Proof. exact (conj (proj1 melee_calls_from_source) melee_blocks_from_source). Qed.
+(* an invalid sequence in a name field that is present never yields a player (nor "no player"): the error propagates *)
+Theorem C19_invalid_field_is_error : forall port v0b teams v1_0 v1_3 nb cb v311,
+  let blk := blk_named v1_3 nb cb in
+  (forall b, blk (src_of "name_tag") = Some b -> melee_string b = SjErr ->
+             forall x, player_of port v0b teams v1_0 v1_3 nb cb v311 <> ROk x) /\
+  (forall n c, blk (src_of "netplay.name") = Some n -> blk (src_of "netplay.code") = Some c ->
+               melee_string n = SjErr \/ melee_string c = SjErr ->
+               forall x, player_of port v0b teams v1_0 v1_3 nb cb v311 <> ROk x).
+Proof. exact player_melee_error_from_source. Qed.
+
 Print Assumptions C19_tail_irrelevant.
 Print Assumptions C19_prefix.
 Print Assumptions C19_invalid.
@@ -47,3 +72,8 @@ Print Assumptions C19_leaves_others_unchanged.
 Print Assumptions C19_no_wrap.
 Print Assumptions C19_scalar.
 Print Assumptions C19_idempotent.
+Print Assumptions C19_melee_of_from_source.
+Print Assumptions C19_slice_from_source.
+Print Assumptions C19_to_normalized_from_source.
+Print Assumptions C19_fields_from_source.
+Print Assumptions C19_invalid_field_is_error.
